@@ -267,15 +267,19 @@ def check_lookups(st):
         kind = "more" if len(gotr) > len(wantr) else "fewer" if len(gotr) < len(wantr) else "different"
         viol(st, "resource-lookup", sorted(wantr), sorted(gotr), "cli/rd.py:ResourceLookupInterface", kind)
     # filtered lookups name exactly the matching subset
-    for flt, pred in (("ep=e1", lambda k, m: k[0] == "e1"), ("d=d1", lambda k, m: k[1] == "d1"), ("ep=e*", lambda k, m: True)):
-        r = request(st, GET, EPL, [flt])
+    for flt, pred in (("ep=e1", lambda k, m: k[0] == "e1"), ("d=d1", lambda k, m: k[1] == "d1"), ("ep=e*", lambda k, m: True),
+                      # several criteria are a conjunction (RFC 9176 section 6.1), in either order
+                      (("ep=e1", "d=d1"), lambda k, m: k[0] == "e1" and k[1] == "d1"),
+                      (("d=d1", "ep=e1"), lambda k, m: k[0] == "e1" and k[1] == "d1"),
+                      (("ep=e2", "ep=e*"), lambda k, m: k[0] == "e2")):
+        r = request(st, GET, EPL, [flt] if isinstance(flt, str) else list(flt))
         try:
             g = sorted(h for h, at in parse_linkformat(r.payload.decode("utf8")))
         except Exception:
             g = ["unparsable"]
         w = sorted("/" + "/".join(m["loc"]) for k, m in lv.items() if pred(k, m))
         if g != w:
-            viol(st, "endpoint-lookup-filter", w, g, "cli/rd.py:EndpointLookupInterface", flt)
+            viol(st, "endpoint-lookup-filter", w, g, "cli/rd.py:EndpointLookupInterface", flt if isinstance(flt, str) else "&".join(flt))
     rd = st.rd.common_rd
     if set(id(x) for x in rd._by_key.values()) != set(id(x) for x in rd._by_path.values()):
         viol(st, "tables-disagree", "by_key and by_path describe the same registrations", [list(rd._by_key), list(rd._by_path)],
